@@ -810,3 +810,18 @@ v("d39-terms-indexed-by-dependency-keys", "C04", SM,
   "                        (term_dict[ki] is not None)\n                        and (term_dict[ki] != ki)")
 v("d39-twin-default-arg", "C04", SM,
   "                        (term_dict.get(ki) is not None)\n", "                        (term_dict.get(ki, None) is not None)\n", expect="silent")
+
+v("d40-one-element-list-unpacked", "C13", PBL,
+  "                    raw_values = [contents]\n", "                    raw_values = contents.children\n")
+v("d40-kind-test-dropped", "C13", PBL,
+  "                if isinstance(contents, lark.tree.Tree) and (\n                    contents.data in [\"tuplelist_comp\", \"set_comp\"]\n                ):",
+  "                if isinstance(contents, lark.tree.Tree):")
+v("d40-twin-tuple-of-kinds", "C13", PBL,
+  "                    contents.data in [\"tuplelist_comp\", \"set_comp\"]\n", "                    contents.data in (\"tuplelist_comp\", \"set_comp\")\n", expect="silent")
+
+v("d41-negative-by-comparison", "C13", ER, '            and value_text.startswith("-")\n', '            and (self.value < 0)\n')
+v("d41-negative-by-comparison-c12", "C12", ER, '            and value_text.startswith("-")\n', '            and (self.value <= -0.0)\n')
+v("d42-numpy-scalar-kept", "C12", ER,
+  "        if canonical_type is not type(value):\n            # store numpy scalars as the equivalent Python scalar, so the printed constant can be read back\n            value = canonical_type(value)\n", "")
+v("d42-twin-inline-conversion", "C12", ER,
+  "            value = canonical_type(value)\n", "            value = data_algebra.util.map_type_to_canonical(type(value))(value)\n", expect="silent")
